@@ -35,7 +35,8 @@ def check(run):
         if ok:
             run.holds('the closure check_containers hands to the walker calls check_container on exactly the node it is given', 'T', bound='MIR of check_containers::{closure#0}')
         else:
-            run.violated('check_containers closure calls check_container on its node', 'T', 'check-containers-closure', {'detail': detail}, True)
+            nb = native.sweep_c08()[1]
+            run.violated('check_containers closure calls check_container on its node, on every path', 'T', 'check-containers-closure', {'detail': detail, 'native': nb[:1]}, bool(nb), detail=detail)
     except mir.Unsupported as e:
         run.inconclusive('check_containers closure', 'T', str(e))
     # check_containers is nothing but that walk: no diagnostic is added, removed or rewritten before / after it
